@@ -203,7 +203,12 @@ def check_runtime_side(ctx, lib):
             elif t["callee"] == NEW:
                 nnew += 1
                 ok, why = dead_new_site(lib, cg, b, bb, t, sigs, ap_off)
-                ctx.check(ok, rule, f"live-parse-error:{d}", f"{d}: JmespathError::new(\"\", 0, Parse(..)) while searching — {why}", t["span"]["s"])
+                # keyed by the function the site belongs to and by what makes the option possibly None, so that a different
+                # live fabrication in the same function is a different finding
+                m_ = re.match(r"^(from_f64|as_[a-z]+\(\)|Number::as_f64|option of unknown origin|closure is passed to [^ ]+|not the None case)", why)
+                tag = (m_.group(1) if m_ else "other").replace(" ", "-")
+                owner = "+".join(sorted(lib.owners(b)))
+                ctx.check(ok, rule, f"live-parse-error:{owner}:{tag}", f"{d}: JmespathError::new(\"\", 0, Parse(..)) while searching — {why}", t["span"]["s"])
         for bb, i, s in b.stmts():
             if s["k"] == "assign" and s["rv"]["k"] == "agg" and s["rv"].get("adt") == "errors::JmespathError":
                 ctx.bad(rule, f"{d}:raw-aggregate", f"{d} builds a JmespathError directly", s["span"]["s"])
@@ -228,24 +233,42 @@ def check_runtime_side(ctx, lib):
 
 
 def dead_new_site(lib, cg, b, bb, t, sigs, ap_off):
-    """JmespathError::new("", 0, Parse) inside an ok_or_else closure is dead if the option is provably Some."""
-    if b.kind != "closure":
-        return False, "not inside an ok_or_else closure: live"
-    parent = lib.fn(b.j.get("closure_parent", ""))
-    if parent is None:
-        return False, "closure parent not found"
-    po = Origins(parent, lib)
-    use = None
-    for pb, pt in parent.calls():
-        for i, a in enumerate(pt["args"]):
-            if any(x[0] == "closure" and x[1] == b.deff for x in po.of_operand(a)):
-                use = (pb, pt, i)
-    if use is None:
-        return False, "closure use not found"
-    pb, pt, ai = use
-    if pt["callee"] not in ("std::option::Option::<T>::ok_or_else",):
-        return False, f"closure is passed to {pt['callee']}"
-    opt = po.of_operand(pt["args"][0])
+    """JmespathError::new("", 0, Parse) built for the None case of an option is dead if the option is provably Some.
+    The None case is either the None edge of a case analysis in this body (`opt.ok_or_else(|| ..)?` after normalisation,
+    `match opt { None => return Err(..) }`, `let .. else`) or — where a combinator was left as a call — the closure handed to ok_or_else."""
+    opt = None
+    parent = None
+    pb = None
+    o = Origins(b, lib)
+    br = Branches(b, o)
+    best = None
+    for sb, sw in br.switches():
+        ve = br.variant_edges(sb)
+        if ve and ve["adt"] == "std::option::Option" and "None" in ve["edges"] and ve["edges"]["None"] != ve["edges"].get("Some") and \
+                edge_dominates(b, (sb, ve["edges"]["None"]), bb):
+            depth = len(b.dominators().get(sb, ()))
+            if best is None or depth > best[0]:
+                best = (depth, sb, ve)
+    if best is not None:
+        parent, pb, opt = b, best[1], set(best[2]["scrutinee"])
+    else:
+        if b.kind != "closure":
+            return False, "not the None case of an option: live"
+        parent = lib.fn(b.j.get("closure_parent", ""))
+        if parent is None:
+            return False, "closure parent not found"
+        po = Origins(parent, lib)
+        use = None
+        for pb_, pt in parent.calls():
+            for i, a in enumerate(pt["args"]):
+                if any(x[0] == "closure" and x[1] == b.deff for x in po.of_operand(a)):
+                    use = (pb_, pt, i)
+        if use is None:
+            return False, "closure use not found"
+        pb, pt, ai = use
+        if pt["callee"] not in ("std::option::Option::<T>::ok_or_else",):
+            return False, f"closure is passed to {pt['callee']}"
+        opt = po.of_operand(pt["args"][0])
     # evaluate body (root) for parameter kinds
     root = parent
     while root.kind == "closure":
